@@ -45,7 +45,9 @@ func (dec *Decoder) decodeNaNAsInterface(p *interface{}) {
 	case RealTypeFloat64:
 		*p = math.NaN()
 	default:
-		dec.Error = DecodeError("hprose/io: can not parse NaN to *big.Float")
+		if dec.Error == nil {
+			dec.Error = DecodeError("hprose/io: can not parse NaN to *big.Float")
+		}
 	}
 }
 
@@ -182,7 +184,9 @@ func (dec *Decoder) decodeInterface(tag byte, p *interface{}) {
 	case TagError:
 		var s string
 		dec.decodeString(stringType, dec.NextByte(), &s)
-		dec.Error = DecodeError(s)
+		if dec.Error == nil {
+			dec.Error = DecodeError(s)
+		}
 	default:
 		if dec.Error == nil {
 			dec.Error = DecodeError(fmt.Sprintf("hprose/io: invalid tag '%s'(0x%x)", string(tag), tag))
